@@ -392,9 +392,17 @@ func (k *Keeper) ApplyMessageWithConfig(ctx sdk.Context,
 		// take over the nonce management from evm:
 		// - reset sender's nonce to msg.Nonce() before calling evm.
 		// - increase sender's nonce by one no matter the result.
+		// the ante handler has already advanced the nonce once for every message of the transaction:
+		// keep that value when it is ahead. storing msg.Nonce()+1 over it gave back the nonces of the
+		// messages that follow a creation in the same transaction, which could then be included again.
+		nonceBefore := stateDB.GetNonce(sender.Address())
 		stateDB.SetNonce(sender.Address(), msg.Nonce())
 		ret, _, leftoverGas, vmErr = evm.Create(sender, msg.Data(), leftoverGas, msg.Value())
-		stateDB.SetNonce(sender.Address(), msg.Nonce()+1)
+		nonceAfter := msg.Nonce() + 1
+		if nonceBefore > nonceAfter {
+			nonceAfter = nonceBefore
+		}
+		stateDB.SetNonce(sender.Address(), nonceAfter)
 	} else {
 		ret, leftoverGas, vmErr = evm.Call(sender, *msg.To(), msg.Data(), leftoverGas, msg.Value())
 	}
